@@ -217,6 +217,15 @@ def R3_set_emissions(run):
     es = [w for w in ws if w["field"] == "emissions_per_second_x64"]
     ok = len(es) == 1 and is_param(pv._rvalue(es[0]["rv"], es[0]["block"], es[0]["stmt"], 0), "emissions_per_second_x64")
     ur = calls_to(fn, ends("Whirlpool::update_rewards"))
+    if not ur:
+        # update_rewards written in place: the same two stores (recognised by what update_rewards itself stores)
+        ur = [(mb, None, [recv, a_.get(1), a_.get(2)]) for (mp_, mb, recv, a_, _w) in writes.recognise_mutators(facts, fn)
+              if mp_ == "state::whirlpool::Whirlpool::update_rewards" and a_.get(1) is not None and a_.get(2) is not None]
+        if ur:
+            # the settled infos are stored before the new rate: in one block, statement order decides
+            sw_ = [w for w in ws if w["field"] == "reward_infos" and w["kind"] == "assign"]
+            if es and sw_ and any((w["block"], w["stmt"]) > (es[0]["block"], es[0]["stmt"]) and w["block"] == es[0]["block"] for w in sw_):
+                ur = []
     ok = ok and len(ur) == 1 and is_param(ur[0][2][1], "reward_infos") and is_param(ur[0][2][2], "timestamp") and es and cfg.dominates(fn, ur[0][0], es[0]["block"])
     run.check("R3", "store-order", ok, "update_emissions does not first store the settled reward infos and then the new rate at reward_infos[index]", loc=fn.loc(),
               detail="update_rewards(settled, ts); reward_infos[index].emissions := new rate")
